@@ -13,6 +13,11 @@ def loop_shape(fn, ctx, L):
        body   node id
     """
     n = fn.nodes[L]
+    if n["k"] == "forrange":
+        allx = loop_exits(fn, L)
+        v = n.get("var") or {}
+        return {"kind": "range", "node": L, "body": n.get("body"), "var": ("var", v.get("d"), v.get("n")), "bound": ctx.key(n["range"]),
+                "exits": [e for e in allx if e[1] != "continue"], "continues": [e for e in allx if e[1] == "continue"]}
     allx = loop_exits(fn, L)
     # a `continue` ends one iteration, it does not truncate the loop: it is a per-item filter, equivalent to wrapping the
     # rest of the body in the negated condition (branch facts at a statement already include that condition).
@@ -181,7 +186,7 @@ def covers(shp, container, start0=True):
     iterator form  it = C.begin(); it != C.end(); ++it      index form  i = 0; i < C.size(); ++i  (size may be hoisted: keys inline it)"""
     if shp is None or shp.get("exits"):
         return False
-    if shp["kind"] == "iter":
+    if shp["kind"] in ("iter", "range"):
         return shp["bound"] == container
     if shp["kind"] == "index" and shp.get("rel") == "<" and (not start0 or _unconv(shp["start"]) == ("lit", 0)):
         b = _unconv(shp["bound"])
@@ -192,6 +197,8 @@ def covers(shp, container, start0=True):
 def element_keys(shp, container):
     """keys that denote the element visited in the current iteration of a loop for which covers(shp, container) holds"""
     v = shp["var"]
+    if shp["kind"] == "range":
+        return [v]
     if shp["kind"] == "iter":
         return [("un", "*", v), ("op", "*", v), ("op", "->", v)]
     out = [("op", "[]", container, v)]
@@ -233,7 +240,7 @@ def sum_over(fn, ctx, container):
             lhs = n["l"] if n["k"] == "bin" else n["args"][0]
             rhs = n["r"] if n["k"] == "bin" else n["args"][1]
             for L in enclosing_loops(fn, j):
-                if fn.nodes[L]["k"] != "for":
+                if fn.nodes[L]["k"] not in ("for", "forrange"):
                     continue
                 shp = loop_shape(fn, ctx, L)
                 from .expr import key_contains
